@@ -295,6 +295,13 @@ func VerifH_C10_ClientMultiGet() {
 			return nil
 		}
 	}
+	// optionally the first href is requested once more at the end: every
+	// requested href is answered, in request order
+	repeated := false
+	if failCode == 0 && n >= 2 && vrt.Choose("first-href-again", 2) == 1 {
+		repeated = true
+		paths = append(paths, paths[0])
+	}
 	c, _ := newLoopClient(be)
 	got, err := c.MultiGetCalendar(context.Background(), "/dav/u/cal/c/", &CalendarMultiGet{Paths: paths, CompRequest: CalendarCompRequest{Name: "VCALENDAR", AllProps: true, AllComps: true}})
 	if failCode != 0 {
@@ -312,12 +319,16 @@ func VerifH_C10_ClientMultiGet() {
 	if err != nil {
 		return
 	}
-	vrt.Assert(len(got) == n, "MultiGetCalendar: one object per requested path")
-	if len(got) != n {
+	vrt.Assert(len(got) == len(paths), "MultiGetCalendar: one object per requested path")
+	if len(got) != len(paths) {
 		return
 	}
 	for i := range got {
-		objEqC10(&got[i], &be.objects[i], "MultiGetCalendar")
+		want := i
+		if repeated && i == n {
+			want = 0
+		}
+		objEqC10(&got[i], &be.objects[want], "MultiGetCalendar")
 	}
 	vrt.Reach("client-multiget")
 }
